@@ -16,8 +16,7 @@
    behave alike).  Whether an account pattern matches a validator is an input ([v_accts]):
    regular-expression matching is Go's, on the documented meaning of the pattern.  Durations are nanoseconds, minimum values are decimals [m * 10^e] in wei.
    Go maps are key-unique association lists; the model iterates them in list order (the proofs
-   show that the order only permutes the resulting relay list).  int64 overflow of
-   "grace milliseconds * 10^6" is outside the model (bound stated in props/C10.json). *)
+   show that the order only permutes the resulting relay list). *)
 From Verif Require Import Lib.Base.
 
 (* ------------------------------------------------------------------------------------------ *)
@@ -433,10 +432,13 @@ Definition d_num (j : json) : option (option N) :=
   | JStr (LNum n) => Some (Some n)
   | _ => None
   end.
+(* time.Duration(ms) * time.Millisecond must fit int64: larger values are refused
+   (fix: they used to wrap around into an arbitrary, possibly negative, grace) *)
+Definition max_grace_ms : N := 9223372036854.          (* MaxInt64 / 10^6 *)
 Definition d_grace (j : json) : option (option N) :=
   match j with
   | JNull | JStr LEmpty => Some None
-  | JStr (LNum ms) => Some (Some (ms * ns_per_ms))
+  | JStr (LNum ms) => if ms <=? max_grace_ms then Some (Some (ms * ns_per_ms)) else None
   | _ => None
   end.
 Definition d_min (j : json) : option (option dec) :=
